@@ -64,6 +64,9 @@ def sim_configs(ss, rng, thorough):
     from harness.probes import ScipyDelay
     add('user-scipy-dists', lambda seed: ss.Sim(n_agents=80, diseases=ss.SIS(), networks=ss.RandomNet(), dur=6, rand_seed=seed, verbose=0,
         interventions=[ScipyDelay(name='delay_a'), ScipyDelay(name='delay_b')]))
+    from harness.probes import PreUsed
+    add('pre-used-dists', lambda seed: ss.Sim(n_agents=80, diseases=ss.SIS(), networks=ss.RandomNet(), dur=9, rand_seed=seed, verbose=0, copy_inputs=False,
+        interventions=[PreUsed(name='preused')]))
     add('sis-random-births-deaths', lambda seed: ss.Sim(n_agents=150, diseases=ss.SIS(), networks=ss.RandomNet(n_contacts=ss.poisson(4)),
         demographics=[ss.Births(birth_rate=30), ss.Deaths(death_rate=20)], dur=8, rand_seed=seed, verbose=0))
     add('two-diseases-two-nets-own-dt', lambda seed: ss.Sim(n_agents=100, diseases=[ss.SIR(dt=0.5), ss.SIS(beta=0.1)],
@@ -107,6 +110,13 @@ def run_level(ctx, ss):
                     st0, inc0 = int(d.history[0]['state']['state']), int(d.history[0]['state']['inc'])
                     if inc0 % 2 != 1 or not (0 <= st0 < 2**128) or type(d.rng.bit_generator).__name__ != 'PCG64':
                         ctx.broke('correspondence', f'{name}: generator of {tr} does not meet the premises of the full-period theorem (PCG64, odd increment, state < 2^128)', repr(dict(trace=tr, inc=inc0, state=st0, bitgen=type(d.rng.bit_generator).__name__)))
+            # the history every jump rewinds to starts at the state of a fresh generator of the distribution's own seed
+            for tr, d in sim.dists.dists.items():
+                if d.history:
+                    fresh = np.random.default_rng(seed=d.seed).bit_generator.state['state']
+                    h0 = d.history[0]['state']
+                    if int(h0['state']) != int(fresh['state']) or int(h0['inc']) != int(fresh['inc']):
+                        ctx.violation(f'{name}: distribution {tr} (seed {d.seed}) jumps from a base state that is not the initial state of its own seed: it replays the stream of an earlier initialisation', dict(config=name, seed=seed, trace=tr))
             seeds = {}
             for tr, d in sim.dists.dists.items():
                 if d.seed in seeds:
